@@ -32,6 +32,8 @@ ALL = {
     'C08': 'p_c08',
     'C09': 'p_c09',
     'C10': 'p_c10',
+    'C14': 'p_c14',
+    'C15': 'p_c15',
     'C20': 'p_c20',
 }
 
